@@ -4,6 +4,8 @@ use crate::explore::{explore, replay_one, Caps, Ctx};
 use crate::report::{Failure, Report};
 use serde_json::Value;
 
+pub mod bcommon;
+pub mod c01;
 pub mod c16;
 
 /// A bounded space of cases with its oracle.
@@ -77,6 +79,7 @@ pub fn replay_space<S: Space>(space: &S, f: &Failure, prop: &str) -> i32 {
 
 pub fn run_check(id: &str, tier: &str) -> i32 {
     match id {
+        "C01" => c01::run(tier),
         "C16" => c16::run(tier),
         _ => {
             eprintln!("MACHINERY-ERROR: unknown property {}", id);
@@ -97,6 +100,7 @@ pub fn run_replay(path: &str) -> i32 {
     let prop = v["property"].as_str().unwrap_or("").to_string();
     let f: Failure = serde_json::from_value(v["failure"].clone()).unwrap();
     match prop.as_str() {
+        "C01" => c01::replay(&f),
         "C16" => c16::replay(&f),
         _ => {
             eprintln!("MACHINERY-ERROR: unknown property {}", prop);
